@@ -3,10 +3,15 @@ from __future__ import annotations
 
 import math
 import random
+import sys
 import warnings as _warnings
+from dataclasses import replace as _dc_replace
 from fractions import Fraction
 
 from harness.corr import c19_stats as S
+
+if hasattr(sys, "set_int_max_str_digits"):
+    sys.set_int_max_str_digits(0)       # exact rationals on the wire can have thousands of digits
 
 BATTR_FREE = ["minimization_successful", "rounding_errors", "maxevals_exceeded", "final_zero_gradient"]
 BATTR_MODEL = ["final_zero_gradient_theta", "final_zero_gradient_omega", "final_zero_gradient_sigma",
@@ -97,6 +102,18 @@ def gen_rank_case(rng, tier):
         else:
             m["npar"] = rng.randint(0, 6)
         models.append(m)
+    base_fail = None
+    if n and rng.random() < 0.12:
+        # the base model is ineligible (NaN OFV or fails strictness) while candidates can pass
+        base_fail = rng.choice(["nan", "strict"])
+        if base_fail == "nan":
+            models[0]["ofv"] = None
+        else:
+            models[0]["ms"], models[0]["cause"] = False, "maxevals_exceeded"
+        for m in models[1:]:
+            if rng.random() < 0.8:
+                m["ms"] = True
+                m["ofv"] = m["ofv"] if m["ofv"] is not None else rng.choice(pool)
     parent = None
     if rank_type == "lrt" and n and rng.random() < 0.6:
         parent = [rng.randrange(0, i + 1) if rng.random() < 0.8 else rng.choice([j for j in range(n + 1) if j != i + 1])
@@ -105,6 +122,8 @@ def gen_rank_case(rng, tier):
     if rng.random() < 0.3:
         penalties = [_dy(rng, 0, 10, 4) if rng.random() < 0.7 else 0.0 for _ in range(n + 1)]
     r = rng.random()
+    if base_fail == "strict":
+        r = 0.2
     if r < 0.12:
         strict = None                       # ""
     elif r < 0.3:
@@ -188,6 +207,14 @@ def corpus_cases():
                  models=[real(0, ofv=0.0), real(1)], seed=9),
             {"kind": "lrt", "pn": 2, "pofv": 0.0, "models": [[3, -3.0], [1, None], [4, -3.0], [2, 1.0]], "alpha": "0.05", "seed": 10},
             {"kind": "lrt", "pn": 2, "pofv": 0.0, "models": [[1, None]], "alpha": "0.05", "seed": 11}]
+    # create_results: base ineligible (fails strictness / NaN OFV) while candidates pass; ties; all fail
+    for j, (rtype, btype) in enumerate([("ofv", None), ("aic", None), ("bic", "mixed"), ("lrt", None)]):
+        out.append(dict(rb, rank_type=rtype, bic_type=btype, seed=40 + j,
+                        models=[real(0, ofv=600.0, ms=False), real(0, ofv=590.0), real(1, ofv=580.0), real(1, ofv=580.0)]))
+        out.append(dict(rb, rank_type=rtype, bic_type=btype, seed=50 + j,
+                        models=[real(0, ofv=None), real(0, ofv=590.0), real(1, ofv=595.0)]))
+        out.append(dict(rb, rank_type=rtype, bic_type=btype, seed=60 + j,
+                        models=[real(0, ofv=600.0, ms=False), real(0, ofv=590.0, ms=False), real(1, ofv=None)]))
     out += [{"kind": "crit", "pool": k, "ofv": 100.0, "seed": 20 + k} for k in range(NPOOL)]
     out += S.corpus_cases()
     return out
@@ -644,6 +671,7 @@ def run_rank(case, drv):
             tags.append("base-failed")
 
     # ---- K: the Lean model on the same inputs
+    float_tie = False
     if drv is not None:
         ents = []
         for i, inf in enumerate(infos):
@@ -664,19 +692,27 @@ def run_rank(case, drv):
         else:
             rows_m = [(infos[int(r[0])]["name"], unfr(r[1]), unfr(r[2]), None if r[3] == "nan" else int(r[3])) for r in ans[0]]
             dm = {r[0]: r for r in rows_m}
+            # criterion values that coincide exactly (model) but differ in the last bits as floats (code), or vice versa:
+            # which of the two is a tie is a rounding artefact of log(); ranks are then not compared (values still are)
+            cvals = [r[2] for r in rows_code if r[2] is not None]
+            mvals = [float(r[2]) for r in rows_m if r[2] is not None]
+            float_tie = any(a != b and abs(a - b) <= 1e-9 * max(1.0, abs(a)) for vs in (cvals, mvals) for a in vs for b in vs) \
+                and rt in ("bic",)
+            if float_tie:
+                tags.append("float-near-tie")
             for name, d, v, rk in rows_code:
                 mrow = dm.get(name)
                 if mrow is None:
                     k.append(f"row {name} missing in model")
                     continue
-                if (rk is None) != (mrow[3] is None) or (rk is not None and int(rk) != mrow[3]):
+                if (rk is None) != (mrow[3] is None) or (rk is not None and int(rk) != mrow[3] and not float_tie):
                     k.append(f"rank of {name}: model {mrow[3]} code {rk}")
                 if not close(v, mrow[2]):
                     k.append(f"{col} of {name}: model {mrow[2]} code {v}")
                 if not close(d, mrow[1]):
                     k.append(f"d{col} of {name}: model {mrow[1]} code {d}")
             # row order: rank sequence identical; names identical up to order within a rank group / the NaN group
-            if [r[3] for r in rows_m] != [None if r[3] is None else int(r[3]) for r in rows_code]:
+            if not float_tie and [r[3] for r in rows_m] != [None if r[3] is None else int(r[3]) for r in rows_code]:
                 k.append(f"row order: model ranks {[r[3] for r in rows_m]} code {[r[3] for r in rows_code]}")
             best_m = None if ans[1] == "none" else infos[int(ans[1])]["name"]
             code_rank = {r[0]: r[3] for r in rows_code}
@@ -685,8 +721,42 @@ def run_rank(case, drv):
                     k.append(f"best: model {best_m}, code has no ranked row")
             else:
                 best_c = str(df["rank"].idxmin())
-                if best_m is None or code_rank.get(best_m) != code_rank.get(best_c):
+                if not float_tie and (best_m is None or code_rank.get(best_m) != code_rank.get(best_c)):
                     k.append(f"best: model {best_m} code {best_c}")
+
+    # ---- create_results (tools/common.py): the model reported as best; no parent map reaches rank_models there
+    cr = None
+    # (the candidates of one tool run share the data set: summarize_individuals needs the same individuals in every model)
+    if real and rng.random() < 0.7 and len({inf["pm"].nsubs for inf in infos}) == 1:
+        from pharmpy.tools.common import ToolResults, create_results
+        from pharmpy.workflows import Log
+        tags.append("create_results")
+        mes = [ModelEntry.create(model=m.replace(description=m.name), modelfit_results=_dc_replace(r, log=Log()),
+                                 parent=models[0] if i else None)
+               for i, (m, r) in enumerate(zip(models, ress))]
+        try:
+            res = create_results(ToolResults, mes[0], mes[0], mes[1:], rt, cutoff, **({"bic_type": bt} if bt else {}),
+                                 strictness=sstr, penalties=pens)
+            cr = {"final": res.final_model.name, "final_results_ok": any(res.final_results is me.modelfit_results for me in mes
+                                                                         if me.model.name == res.final_model.name),
+                  "rank": {str(ix): nn(v) for ix, v in res.summary_tool["rank"].items()}}
+        except Exception as e:
+            cr = {"err": e}
+            tags.append(f"create_results-raises:{type(e).__name__}")
+        if drv is not None:
+            ents0 = [e[:3] + [0] + e[4:] for e in ents]
+            tab0 = isf_table(sorted(alphas), 16) if rt == "lrt" else []
+            ansc = drv.ask(["createresults", wire_ast(ast), wrt, wco, tab0, ents0])
+            if isinstance(ansc, list) and ansc and ansc[0] == "err":
+                if "err" not in cr or err_of(cr["err"]) != ansc:
+                    k.append(f"create_results: model {ansc}, code {cr.get('final') if 'err' not in cr else err_of(cr['err'])}")
+            elif "err" in cr:
+                k.append(f"create_results: model final {ansc[1]}, code raises {type(cr['err']).__name__}: {str(cr['err'])[:100]}")
+            else:
+                fin_m = infos[int(ansc[1])]["name"]
+                # tied rank-1 rows: pandas' unstable sort decides which one comes first
+                if fin_m != cr["final"] and not float_tie and not (cr["rank"].get(fin_m) == 1 and cr["rank"].get(cr["final"]) == 1):
+                    k.append(f"create_results final model: model {fin_m} code {cr['final']} (ranks {cr['rank']})")
 
     # ---- monitors: the property statement on the real result
     # (1) strictness per model against the documented semantics
@@ -746,36 +816,41 @@ def run_rank(case, drv):
                     "what": f"rank_models raised {type(code_err).__name__}: {str(code_err)[:200]} (strictness {sstr!r})"})
         return {"k": k, "mon": mon, "tags": tags, "nontrivial": True}
 
-    crit = []
-    for i, inf in enumerate(infos):
-        if not strict_doc[i]:
-            crit.append(None)
-        else:
-            v = inf["pm"].crit(inf["ofv"], rt, bt) if inf["pm"] else inf["ofv"]
-            crit.append(v + (pens[i] if pens else 0.0))
-    ref = crit[0]
-    elig = []
-    for i, inf in enumerate(infos):
-        if crit[i] is None:
-            elig.append(False)
-        elif i == 0:
-            elig.append(True)
-        elif rt == "lrt":
-            p = infos[parents[i]]
-            df_ = inf["npar"] - p["npar"]
-            if cutoff is None:
-                alpha = 0.05 if df_ >= 0 else 0.01
-            elif isinstance(cutoff, tuple):
-                alpha = cutoff[0] if df_ >= 0 else cutoff[1]
+    def reference(parents):
+        crit = []
+        for i, inf in enumerate(infos):
+            if not strict_doc[i]:
+                crit.append(None)
             else:
-                alpha = cutoff
-            crit_v = 0.0 if df_ == 0 else (float(chi2.isf(alpha, df_)) if df_ > 0 else -float(chi2.isf(alpha, -df_)))
-            dofv = p["ofv"] - inf["ofv"]
-            elig.append(bool(dofv >= crit_v))
-        elif cutoff is not None and ref is not None:
-            elig.append(bool(ref - crit[i] > cutoff))
-        else:
-            elig.append(True)
+                v = inf["pm"].crit(inf["ofv"], rt, bt) if inf["pm"] else inf["ofv"]
+                crit.append(v + (pens[i] if pens else 0.0))
+        ref = crit[0]
+        elig = []
+        for i, inf in enumerate(infos):
+            if crit[i] is None:
+                elig.append(False)
+            elif i == 0:
+                elig.append(True)
+            elif rt == "lrt":
+                p = infos[parents[i]]
+                df_ = inf["npar"] - p["npar"]
+                if cutoff is None:
+                    alpha = 0.05 if df_ >= 0 else 0.01
+                elif isinstance(cutoff, tuple):
+                    alpha = cutoff[0] if df_ >= 0 else cutoff[1]
+                else:
+                    alpha = cutoff
+                crit_v = 0.0 if df_ == 0 else (float(chi2.isf(alpha, df_)) if df_ > 0 else -float(chi2.isf(alpha, -df_)))
+                dofv = p["ofv"] - inf["ofv"]
+                elig.append(bool(dofv >= crit_v))
+            elif cutoff is not None and ref is not None:
+                elig.append(bool(ref - crit[i] > cutoff))
+            else:
+                elig.append(True)
+        return crit, elig
+
+    crit, elig = reference(parents)
+    ref = crit[0]
     vals = [crit[i] for i in range(n) if elig[i]]
     near_tie = any(a != b and abs(a - b) <= 1e-7 * max(1.0, abs(a)) for a in vals for b in vals)
     code = {r[0]: r for r in rows_code}
@@ -819,6 +894,30 @@ def run_rank(case, drv):
         best = str(df["rank"].idxmin())
         if best != rows_code[0][0] or code[best][3] != 1 or (not near_tie and crit[[inf["name"] for inf in infos].index(best)] != min(vals)):
             mon.append({"cls": "best-not-top", "what": f"best {best}; rows {[(r[0], r[3]) for r in rows_code]}"})
+    # the model reported as best by create_results = top-ranked eligible model (LRT against the base model there);
+    # the base model only when nothing is eligible
+    if cr is not None:
+        crit0, elig0 = reference([0] * n)
+        vals0 = [crit0[i] for i in range(n) if elig0[i]]
+        near0 = any(a != b and abs(a - b) <= 1e-7 * max(1.0, abs(a)) for a in vals0 for b in vals0)
+        names_ = [inf["name"] for inf in infos]
+        if "err" in cr:
+            all_fail = all(c is None for c in crit0)
+            if not (isinstance(cr["err"], ValueError) and "All models fail" in str(cr["err"]) and all_fail and rt != "lrt"):
+                mon.append({"cls": "create-results-raises", "what": f"create_results raised {type(cr['err']).__name__}: {str(cr['err'])[:160]}"})
+        elif not any(elig0):
+            tags.append("create_results:none-eligible")
+            if cr["final"] != "base":
+                mon.append({"cls": "final-model-not-base-when-none-eligible", "what": f"final model {cr['final']}, no model is eligible"})
+        else:
+            fi = names_.index(cr["final"])
+            tags.append("create_results:base-" + ("eligible" if elig0[0] else "ineligible"))
+            if not elig0[fi] or (not near0 and crit0[fi] != min(vals0)):
+                mon.append({"cls": "final-model-not-top-eligible", "what": f"create_results reports {cr['final']} as final model "
+                            f"(eligible={elig0[fi]}, criterion {crit0[fi]}); eligible models and criteria "
+                            f"{[(names_[i], crit0[i]) for i in range(n) if elig0[i]]}; rank column {cr['rank']}"})
+            elif not cr["final_results_ok"]:
+                mon.append({"cls": "final-results-not-of-final-model", "what": f"final_results is not the results object of {cr['final']}"})
     # summarize_tool (tools/common.py) wraps the same frame; on real models also check it keeps rows and ranks
     if real and parent_dict is None and rng.random() < 0.4:
         tags.append("summarize_tool")
